@@ -149,6 +149,10 @@ class C15(E1Check):
                     progs.append({"tree": tree, "cli": cli, "svc": svc, "gen": True, "end": {"kind": "signal", "sig": "SIGTERM"}})
                     progs.append({"tree": tree, "cli": cli, "svc": svc, "gen": True, "end": {"kind": "fail", "path": ps[-1], "phase": "start", "pos": "after"}})
                 progs.append({"tree": tree, "cli": True, "svc": svc, "gen": True, "end": {"kind": "run-return", "value": 3}})
+                if tree == "r" or (tree == "r(a)" and svc):
+                    # the root component is given as a reference that cannot be resolved: a start-up failure like any other
+                    for ref in ("vk_no_such_module:Cls", "vkplugins.comps:NoSuchAttr", "no_such_entry_point"):
+                        progs.append({"tree": tree, "cli": False, "svc": svc, "end": {"kind": "badref", "ref": ref}})
                 for cli in (False, True):
                     for p in ps:
                         for phase in ("ctor", "prepare", "start"):
@@ -221,7 +225,7 @@ class C15(E1Check):
             with warnings.catch_warnings():
                 warnings.simplefilter("ignore")
                 try:
-                    run_application(tree.root_class, {}, backend=env.backend, backend_options=env.backend_options(),
+                    run_application(end["ref"] if end["kind"] == "badref" else tree.root_class, {}, backend=env.backend, backend_options=env.backend_options(),
                                     logging=None, start_timeout=5 if end["kind"] == "timeout" else 10)
                     env.data["outcome"] = ("return",)
                     env.log("RA-return")
@@ -301,7 +305,7 @@ class C15(E1Check):
             exp = expected_for_run_value(RUN_VALUES[end["value"]])
         elif k == "run-raise":
             exp = None
-        elif k in ("fail", "conflict"):
+        elif k in ("fail", "conflict", "badref"):
             exp = ("exit", 1)
         elif k == "timeout":
             ti = next((i for i, ev in enumerate(tr) if ev[:2] == ("env", "timer")), None)
